@@ -6,6 +6,9 @@
 package iso
 
 import (
+	"sync/atomic"
+	"crypto/tls"
+	"errors"
 	"bytes"
 	"context"
 	"fmt"
@@ -121,6 +124,7 @@ type party struct {
 }
 
 type env struct {
+	unwraps atomic.Int64 // unwrap calls since the gate was armed
 	lstate  *structpb.Struct // the WithState value in the listener's own options (nil: none), and a pristine copy
 	lstate0 *structpb.Struct
 	srv     *hs.Server
@@ -130,7 +134,7 @@ type env struct {
 	wg      sync.WaitGroup
 }
 
-func newEnv(seed int64, spare, acceptors int, sw, lstate bool) (*env, error) {
+func newEnv(seed int64, spare, acceptors int, sw, lstate bool, bare ...bool) (*env, error) {
 	e := &env{g: newGates(), results: make(chan hs.AcceptResult, 64)}
 	extra := []nodeenrollment.Option{nodeenrollment.WithLogger(hclog.NewNullLogger())}
 	if lstate {
@@ -138,7 +142,7 @@ func newEnv(seed int64, spare, acceptors int, sw, lstate bool) (*env, error) {
 		e.lstate0 = proto.Clone(e.lstate).(*structpb.Struct)
 		extra = append(extra, nodeenrollment.WithState(e.lstate))
 	}
-	cfg := hs.ServerConfig{Seed: seed, StorageWrapper: sw, NoAcceptLoop: true, OptsSpare: spare,
+	cfg := hs.ServerConfig{Seed: seed, StorageWrapper: sw, NoAcceptLoop: true, OptsSpare: spare, BareBaseTLS: len(bare) > 0 && bare[0],
 		ExtraOpts: extra,
 		GenBefore: func(req *types.GenerateServerCertificatesRequest) { e.g.hit("genBefore:" + string(req.CertificatePublicKeyPkix)) },
 		GenAfter:  func(req *types.GenerateServerCertificatesRequest) { e.g.hit("genAfter:" + string(req.CertificatePublicKeyPkix)) },
@@ -149,6 +153,12 @@ func newEnv(seed int64, spare, acceptors int, sw, lstate bool) (*env, error) {
 	}
 	e.srv = srv
 	e.appOpts = srv.Opts
+	if sw {
+		// every unwrap of a stored key is a point where a scheduler may hold a handshake up
+		srv.W.Wrappers["SW"].OnDecrypt = func() {
+			e.g.hit(fmt.Sprintf("unwrap:%d", e.unwraps.Add(1)))
+		}
+	}
 	srv.W.Rec.Gate = func(op world.OpRec) {
 		if op.Op == "Remove" && op.Type == "ServerLedActivationToken" {
 			e.g.hit("tokenRemove:" + op.Id)
@@ -218,6 +228,9 @@ func (e *env) mkParty(name, kind, stateName, marker string) (*party, error) {
 		if p.state != nil {
 			p.opts = append(p.opts, nodeenrollment.WithState(p.state))
 		}
+	case "baseA", "baseB":
+		// a plain TLS client of the application (no library protocol), offering its own ALPN name
+		p.marker = map[string]string{"baseA": "app-proto", "baseB": "h2"}[kind] // both are in the non-bare base configuration's list
 	case "token":
 		var topts []nodeenrollment.Option
 		if p.state != nil {
@@ -242,6 +255,8 @@ func (e *env) gateKey(p *party, gate string) string {
 	switch gate {
 	case "tokenRemove":
 		return "tokenRemove:" + p.tokId
+	case "unwrap1", "unwrap2", "unwrap3", "unwrap4":
+		return "unwrap:" + gate[len("unwrap"):]
 	case "genBefore", "genAfter":
 		creds, err := types.LoadNodeCredentials(e.srv.W.Ctx, p.store, nodeenrollment.CurrentId)
 		if err != nil {
@@ -259,6 +274,13 @@ type dialRes struct {
 func (e *env) dial(p *party) dialRes {
 	ctx, cancel := context.WithTimeout(context.Background(), 8*time.Second)
 	defer cancel()
+	if p.kind == "baseA" || p.kind == "baseB" {
+		es, _ := e.srv.RawDial(ctx, []string{p.marker}, nil, tls.VersionTLS12)
+		if es != "" {
+			return dialRes{err: errors.New(es)}
+		}
+		return dialRes{}
+	}
 	c, err := protocol.Dial(ctx, p.store, e.srv.Addr, p.opts...)
 	if c != nil {
 		defer c.Close()
@@ -278,6 +300,12 @@ func (e *env) judge(p *party, d dialRes, results []hs.AcceptResult) (outcome str
 		}
 	}
 	ownState, ownProtos = true, true
+	if p.kind == "baseA" || p.kind == "baseB" {
+		if d.err == nil {
+			return "base", true, true
+		}
+		return "failed", true, true
+	}
 	if mine != nil {
 		has, foreign := false, false
 		for _, pr := range mine.Protos {
@@ -344,6 +372,8 @@ func (e *env) drain(d time.Duration) []hs.AcceptResult {
 
 func want(kind string) string {
 	switch kind {
+	case "baseA", "baseB":
+		return "base"
 	case "auth":
 		return "auth"
 	case "token":
@@ -355,7 +385,9 @@ func want(kind string) string {
 // schedule: park A at its gate, run B to completion, release A.
 func schedule(op map[string]any, ln *Line, seed int64) {
 	lst, _ := op["lstate"].(bool)
-	e, err := newEnv(seed, num(op, "spare"), 2, false, lst)
+	swOn, _ := op["sw"].(bool)
+	bare, _ := op["bare"].(bool)
+	e, err := newEnv(seed, num(op, "spare"), 2, swOn, lst, bare)
 	if err != nil {
 		ln.Res, ln.Obs.Msg = "setup-error", err.Error()
 		return
@@ -372,13 +404,21 @@ func schedule(op map[string]any, ln *Line, seed int64) {
 		return
 	}
 	key := e.gateKey(a, str(op, "gate"))
+	e.unwraps.Store(0)
 	e.g.arm(key)
 	ad := make(chan dialRes, 1)
 	go func() { ad <- e.dial(a) }()
-	select {
-	case <-e.g.parked:
+	if str(op, "gate") == "none" {
+		// no gate: A is handled to completion first, then B (sequential interference through shared listener state)
+		r := <-ad
+		ad <- r
 		ln.Obs.Parked = true
-	case <-time.After(3 * time.Second):
+	} else {
+		select {
+		case <-e.g.parked:
+			ln.Obs.Parked = true
+		case <-time.After(3 * time.Second):
+		}
 	}
 	bres := e.dial(b)
 	results := e.drain(250 * time.Millisecond)
